@@ -3,7 +3,8 @@
 # without the patch, fails with it, and that the pinned unit suite still passes with it.
 # Writes /tmp/mut/out/<id>/<v>/confirm.json
 id=$1; v=$2
-wt=/tmp/mut/$id; out=/tmp/mut/out/$id/$v
+MUT=${MUT:-/tmp/mut}
+wt=$MUT/$id; out=$MUT/out/$id/$v
 export GOFLAGS=-mod=mod GOPROXY=off GOSUMDB=off GOTOOLCHAIN=local CORE_CHAINCODE_LOGGING_LEVEL=critical
 cd $wt || exit 2
 git checkout -q -- . ; git clean -fdq
